@@ -83,7 +83,8 @@ func (s *sim) catalog() []*cloudprovider.InstanceType {
 	for _, t := range s.sc.Catalog {
 		ts := world.TypeSpec{Name: t.Name, CPU: t.CPU, MemMi: t.MemMi}
 		for _, o := range t.Offerings {
-			ts.Offerings = append(ts.Offerings, world.OfferingSpec{Zone: o.Zone, CapacityType: o.CT, Price: o.Price, Available: o.Available})
+			ts.Offerings = append(ts.Offerings, world.OfferingSpec{Zone: o.Zone, CapacityType: o.CT, Price: o.Price, Available: o.Available,
+				ReservationID: o.Rid, ReservationCap: o.Rcap})
 		}
 		out = append(out, world.MakeType(ts))
 	}
